@@ -39,7 +39,9 @@ Definition hx (s : string) : string := match s with EmptyString => "-" | _ => he
 Definition calls_for (ins : string) (ai : nat) (arg : string) : list (string * string) :=
   let args := args_of ins in
   let pth (k : nat) := path_text (nth_mod [] bpaths (ai * 3 + k)) in
-  let l1 := map (fun k => ("get", "get|" ++ arg ++ "|" ++ pth k)) (seqn 8) in
+  let x1 := ("get", "get|" ++ arg ++ "|" ++ path_text ["X"]) in
+  let x2 := ("get", "get|" ++ arg ++ "|" ++ path_text ["X"; "X"]) in
+  let l1 := x1 :: x2 :: map (fun k => ("get", "get|" ++ arg ++ "|" ++ pth k)) (seqn 8) in
   let l2 := map (fun k => ("getto", "getto|" ++ arg ++ "|" ++ pth (k + 8))) (seqn 5) in
   let l3 := map (fun k => ("len", "len|" ++ arg ++ "|" ++ pth (k + 2))) (seqn 5) in
   let l4 := map (fun k => ("cap", "cap|" ++ arg ++ "|" ++ pth (k + 4))) (seqn 5) in
